@@ -65,6 +65,7 @@ func c19config(n int) ([]c19entry, []byte) {
 type c19result struct {
 	entry ConfigEntry
 	ok    bool
+	msg   string // error text
 }
 
 func c19lookup(data []byte, host string) c19result {
@@ -72,11 +73,15 @@ func c19lookup(data []byte, host string) c19result {
 	f, err := decodeConfigFile(data)
 	verifMapOrder(false)
 	if err != nil {
-		return c19result{}
+		return c19result{msg: err.Error()}
 	}
 	c := &ConfigFile{data: f, runner: func(helper, server string) (ConfigEntry, error) { return ConfigEntry{}, c19otherErr }}
 	e, err := c.EntryForRegistry(host)
-	return c19result{entry: e, ok: err == nil}
+	msg := ""
+	if err != nil {
+		msg = err.Error()
+	}
+	return c19result{entry: e, ok: err == nil, msg: msg}
 }
 
 // VerifC19_Determinism: two decodings of the same document (independent map iteration
@@ -88,9 +93,16 @@ func VerifC19_Determinism() {
 	host := hosts[verifChoose("lookup", len(hosts))]
 	r1 := c19lookup(data, host)
 	r2 := c19lookup(data, host)
-	verifAssert(r1.ok == r2.ok, "same-success-for-any-map-order")
-	if r1.ok && r2.ok {
-		verifAssert(r1.entry == r2.entry, "same-entry-for-any-map-order")
+	// (natively the map order cannot be chosen: sample many decodings)
+	for i := 0; i < verifRepeatNative(200); i++ {
+		if i > 0 {
+			r2 = c19lookup(data, host)
+		}
+		verifAssert(r1.ok == r2.ok, "same-success-for-any-map-order")
+		if r1.ok && r2.ok {
+			verifAssert(r1.entry == r2.entry, "same-entry-for-any-map-order")
+		}
+		verifAssert(r1.msg == r2.msg, "same-error-for-any-map-order")
 	}
 	// precedence oracle
 	var explicit *c19entry
